@@ -212,12 +212,12 @@ def c10_task(payload):
                     object.__setattr__(pt, "exc_details", False)
                     object.__setattr__(pt, "dialect_value", dialect)
                     res = g1.verify_from_dict(cls, fn, dict(r.globals), pt, view_factory=g4.make_dec_view(cls, genf), inline=table)
-                    obs.append(g4._ob(oid, res, r, "REF_DEC", cls, genf, src))
+                    obs.append(g4._ob(oid, res, r, "REF_DEC", cls, genf, src, {"dialect": dialect} if dialect is not None else None))
                 else:
                     pp = g2.PPoint(())
                     object.__setattr__(pp, "dialect_value", dialect)
                     res = g2.verify_to_dict(cls, fn, dict(r.globals), pp, ("cfgd", "cfg"), frozenset(), view_factory=g4.make_enc_view(cls, genf), inline=table)
-                    obs.append(g4._ob(oid, res, r, "REF_ENC", cls, genf, src))
+                    obs.append(g4._ob(oid, res, r, "REF_ENC", cls, genf, src, {"dialect": dialect} if dialect is not None else None))
             except (pysym.NotInSubset, ref.Unsupported) as e:
                 obs.append(dict(id=oid, status="undecided", detail=f"outside the verified subset: {e}", unit=r.text[:600]))
         if not final:
